@@ -140,6 +140,7 @@ func cmdCheck(args []string) int {
 		fmt.Printf("ENGINE-ERROR: contracts are inconsistent: %s\n", strings.Join(errs, "; "))
 		return 2
 	}
+	immErrs := g.checkImmutable()
 	kf := loadFindings(*known)
 	var cts []*Contract
 	for _, k := range sortedKeys(g.db.Contracts) {
@@ -276,6 +277,21 @@ func cmdCheck(args []string) int {
 		violations++
 		path := writeReplay(*replayDir, *prop, "count-guard", map[string]interface{}{"obligation": "count-guard", "reason": guardMsg})
 		fmt.Printf("VIOLATION property=%s replay=%s obligation=count-guard %s no-failing-input-found\n", *prop, path, guardMsg)
+	}
+	// the "immutable" declarations the memory model relies on hold for the whole repository
+	if len(g.db.Immutables) > 0 {
+		total++
+		if len(immErrs) == 0 {
+			discharged++
+			bySolver["syntactic"]++
+			if *verbose {
+				fmt.Printf("  %-70s %-12s %-7s\n", "immutable:declared-types", "discharged", "scan")
+			}
+		} else {
+			violations++
+			path := writeReplay(*replayDir, *prop, "immutable", map[string]interface{}{"obligation": "immutable:declared-types", "reason": strings.Join(immErrs, "\n")})
+			fmt.Printf("VIOLATION property=%s replay=%s obligation=immutable:declared-types %s no-failing-input-found\n", *prop, path, immErrs[0])
+		}
 	}
 	if len(obls) == 0 && guardMsg == "" {
 		fmt.Printf("ENGINE-ERROR: no obligations generated for %s\n", *prop)
